@@ -837,6 +837,14 @@ func (ex *Exec) applyContract(con *Contract, cname string, names []string, typs 
 		}
 		vars[n] = &CVal{T: ex.termOf(args[i]), Typ: typs[i]}
 	}
+	// callers' site clauses name the callee's parameters: keep the recorded names usable after a rename
+	for oldn, nw := range con.Renamed {
+		if v, ok := vars[nw]; ok {
+			if _, clash := vars[oldn]; !clash {
+				vars[oldn] = v
+			}
+		}
+	}
 	pre := st.clone()
 	env := &CEnv{ex: ex, vars: vars, st: pre, old: pre, pkg: pkg, reach: reach}
 	k := 0
